@@ -20,15 +20,17 @@ METHODS = ['as', 'bl', 'tf', 'ir']
 
 
 def oracle(ctx, n, dx, w0, lam, z):
-    x = (np.arange(n) - n // 2) * dx
-    X, Y = np.meshgrid(x, x, indexing='ij')
+    nu, nv = n if isinstance(n, (tuple, list)) else (n, n)
+    x = (np.arange(nu) - nu // 2) * dx
+    y = (np.arange(nv) - nv // 2) * dx
+    X, Y = np.meshgrid(x, y, indexing='ij')
     r2 = X ** 2 + Y ** 2
     zR = math.pi * w0 ** 2 / lam
     w = w0 * math.sqrt(1 + (z / zR) ** 2)
     k = 2 * math.pi / lam
     ref = w0 / w * np.exp(-r2 / w ** 2) * np.exp(1j * (k * z + k * r2 * (z / (z * z + zR * zR)) / 2 - math.atan2(z, zR)))
     if ctx.drv_ok:      # the Python formula must agree with the Lean definition it stands for
-        idx = [(n // 2, n // 2), (n // 2 + 3, n // 2 - 2), (5, 7)]
+        idx = [(nu // 2, nv // 2), (nu // 2 + 3, nv // 2 - 2), (5, 7)]
         mo = ctx.model.ask(['gauss %d %d %d %d' % (f2b(w0), f2b(lam), f2b(z), f2b(float(r2[i, j]))) for (i, j) in idx])
         for (i, j), o in zip(idx, mo):
             v = [b2f(t) for t in o.split()]
@@ -39,7 +41,7 @@ def oracle(ctx, n, dx, w0, lam, z):
 
 def run(ctx):
     rng = ctx.rng
-    ctx.rule = ('Gaussian beams (waists 4-6 px) and lens x aperture fields on n in {64, 96} grids, dx = 0.8, lambda = 0.5, z = +-(0.9..1.0) N dx^2/lambda, '
+    ctx.rule = ('Gaussian beams (waists 4-6 px) and lens x aperture fields on square n in {64, 96} and non-square 64x96, 96x64, 80x64 grids, dx = 0.8, lambda = 0.5, z = +-(0.9..1.0) N dx^2/lambda, '
                 'all four methods x both APIs; non-trivial = every case; distinct by (api, method, n, w0, z)')
     dx, lam = 0.8, 0.5
     fam = []
@@ -48,12 +50,28 @@ def run(ctx):
         for w0 in ((4.0, 6.0) if ctx.quick else (4.0, 5.0, 6.0)):
             for s in ((1.0, -1.0) if ctx.quick else (0.9, 1.0, -0.9, -1.0)):
                 fam.append((n, w0, s * zc))
+    # non-square grids (a kernel that exchanges its two axes is invisible on square ones); the window is set by the smaller side for the
+    # transfer-function methods and by the larger side for the impulse-response methods
+    for shape in (((64, 96),) if ctx.quick else ((64, 96), (96, 64), (80, 64))):
+        for w0 in (4.0, 6.0):
+            for s in (1.0, -1.0):
+                fam.append((shape, w0, s))
     for (n, w0, z) in fam:
+        if isinstance(n, tuple):
+            for meths, side in ((('as', 'bl', 'tf'), min(n)), (('ir',), max(n))):
+                one_family(ctx, n, w0, z * side * dx * dx / lam, dx, lam, meths)
+        else:
+            one_family(ctx, n, w0, z, dx, lam, METHODS)
+    lens_family(ctx, dx, lam)
+
+
+def one_family(ctx, n, w0, z, dx, lam, methods):
+    if True:
         u0 = oracle(ctx, n, dx, w0, lam, 0.0)
         ref = oracle(ctx, n, dx, w0, lam, z)
         eref = np.sum(np.abs(ref) ** 2)
         for api in ('torch', 'numpy'):
-            for meth in METHODS:
+            for meth in methods:
                 rec = {'api': api, 'method': meth, 'n': n, 'w0': w0, 'z': z, 'dx': dx, 'lam': lam}
                 ctx.case((api, meth, n, w0, round(z, 6)), True, rec if len(ctx.samples) < 4 else None)
                 ctx.count('%s/%s/%s' % (api, meth, 'pos' if z > 0 else 'neg'))
@@ -64,21 +82,27 @@ def run(ctx):
                     continue
                 # the property names amplitude, width and curvature sign, not the global phase exp(ikz) (the impulse-response
                 # kernels omit it): compare modulo the phase of the on-axis sample
-                c0 = n // 2
-                g = lambda f: f * np.exp(-1j * np.angle(f[c0, c0]))
+                cu, cv = (n[0] // 2, n[1] // 2) if isinstance(n, tuple) else (n // 2, n // 2)
+                if out.shape != ref.shape:
+                    ctx.violation('%s %s returns shape %r for a %r input' % (api, meth, out.shape, ref.shape), rec, {'api': api, 'method': meth, 'what': 'shape'})
+                    continue
+                g = lambda f: f * np.exp(-1j * np.angle(f[cu, cv]))
                 l2 = math.sqrt(np.sum(np.abs(g(out) - g(ref)) ** 2) / eref)
                 l2c = math.sqrt(np.sum(np.abs(g(out) - g(np.conj(ref))) ** 2) / eref)
                 amp = math.sqrt(np.sum((np.abs(out) - np.abs(ref)) ** 2) / eref)
-                c = n // 2
-                dphi = float(np.angle(out[c, c + 3] * np.conj(out[c, c])))
+                dphi = float(np.angle(out[cu, cv + 3] * np.conj(out[cu, cv])))
+                dphi_u = float(np.angle(out[cu + 3, cv] * np.conj(out[cu, cv])))
                 rec.update(l2=l2, l2_conjugate=l2c, amplitude_error=amp, curvature_phase=dphi)
                 if amp > 0.25:
-                    ctx.violation('%s %s: amplitude/width of the Gaussian beam off by %.3g (relative L2, n=%d w0=%g z=%g)' % (api, meth, amp, n, w0, z),
+                    ctx.violation('%s %s: amplitude/width of the Gaussian beam off by %.3g (relative L2, n=%s w0=%g z=%g)' % (api, meth, amp, n, w0, z),
                                   rec, {'api': api, 'method': meth, 'what': 'amplitude'})
-                elif not (l2 <= 0.25 and l2 <= 0.5 * l2c) or (dphi > 0) != (z > 0):
+                elif not (l2 <= 0.25 and l2 <= 0.5 * l2c) or (dphi > 0) != (z > 0) or (dphi_u > 0) != (z > 0):
                     ctx.violation('%s %s: wavefront curvature has the wrong sign: the output matches the beam propagated by %s (L2 to +z solution %.3g, '
                                   'to its conjugate %.3g)' % (api, meth, '-z' if l2c < l2 else 'neither +z nor -z', l2, l2c),
                                   rec, {'api': api, 'method': meth, 'what': 'direction'})
+
+
+def lens_family(ctx, dx, lam):
     # ---------------- a positive-focal-length lens focuses at +f, not -f
     import odak.learn.wave as LW
     for n in ((64,) if ctx.quick else (64, 96)):
@@ -113,8 +137,9 @@ def replay(ctx, rep):
     ref = oracle(ctx, r['n'], r['dx'], r['w0'], r['lam'], r['z'])
     out = W.impl(r['api'], r['method'], u0, r['dx'], r['lam'], r['z'], samples=(2, 2, 2, 2))
     e = np.sum(np.abs(ref) ** 2)
-    c0 = r['n'] // 2
-    g = lambda f: f * np.exp(-1j * np.angle(f[c0, c0]))
+    n = r['n']
+    cu, cv = (n[0] // 2, n[1] // 2) if isinstance(n, (tuple, list)) else (n // 2, n // 2)
+    g = lambda f: f * np.exp(-1j * np.angle(f[cu, cv]))
     l2 = math.sqrt(np.sum(np.abs(g(out) - g(ref)) ** 2) / e)
     l2c = math.sqrt(np.sum(np.abs(g(out) - g(np.conj(ref))) ** 2) / e)
     print('relative L2 to the +z Gaussian beam %.3g, to its conjugate %.3g' % (l2, l2c))
